@@ -20,6 +20,8 @@ PY = "/venv/bin/python"
 APP_SRC = r'''
 import os, socket, time, sys
 
+if os.environ.get("VERIF_FAIL_IMPORT"):
+    raise RuntimeError("VERIF_FAIL_IMPORT: this application cannot be imported")
 GEN = os.environ.get("VERIF_GEN", "g?")
 IMPORT_IDS = (os.getresuid(), os.getresgid(), tuple(sorted(os.getgroups())))
 GATE = os.environ.get("VERIF_GATE")
@@ -84,6 +86,8 @@ def app(environ, start_response):
             yield b"second-part;"
         start_response("200 OK", hdr + ([("Content-Length", "23")] if path.startswith("/slowcl/") else []))
         return gen2()
+    if path == "/boom":
+        raise RuntimeError("application error on request")
     if path.startswith("/sleep/"):
         time.sleep(float(path[7:]))
     if path == "/hang":
